@@ -10,10 +10,10 @@ import random
 TX_EDITS = ["forge_sig", "no_sig", "flip_sig", "tamper_output", "type_fee", "type_atr", "type_issuance",
             "type_spv", "type_vip", "type_stake", "dup_input", "inflate_input", "phantom_input", "overspend", "wrap_outputs", "zero_lead_foreign"]
 BLOCK_EDITS = ["drop_last_tx", "dup_first_tx", "swap_txs", "tamper_tx_data", "zero_root_drop_tx",
-               "resign_other_key", "bump_timestamp_nosign", "bump_treasury_resign", "bump_burnfee_resign"]
+               "resign_other_key", "bump_timestamp_nosign", "bump_treasury_resign", "bump_burnfee_resign", "atr_redirect"]
 
 
-SIDE_EDITS = ["drop_last_tx", "swap_txs", "tamper_tx_data", "resign_other_key", "flip_block_sig", "dup_first_tx"]
+SIDE_EDITS = ["drop_last_tx", "swap_txs", "tamper_tx_data", "resign_other_key", "flip_block_sig", "dup_first_tx", "atr_redirect"]
 
 
 class Gen:
@@ -134,7 +134,7 @@ class Gen:
         self.prune_pool()
         return True
 
-    def reorg(self, depth=None, plain=False):
+    def reorg(self, depth=None, plain=False, force_forged=False):
         """a competing branch that forks a few blocks below the tip and ends one block higher"""
         if len(self.chain) < 3:
             return False
@@ -157,6 +157,9 @@ class Gen:
         # the poisoned block is the second or a later one of the branch, sometimes the very first
         self.poison_from = 0 if self.rnd.random() < 0.35 else 1
         forged = (not poison) and (not plain) and self.rnd.random() < 0.25
+        first_h = h + 1
+        if (not plain) and first_h % (2 * self.g) == 0 and first_h > self.g + 1 and (force_forged or self.rnd.random() < 0.6):
+            poison, forged = False, True
         for i in range(d + 1):
             self.nlabel += 1
             lab = "s%d" % self.nlabel
@@ -170,6 +173,8 @@ class Gen:
                         txs.append(t)
                 if txs:
                     e = self.rnd.choice(SIDE_EDITS)
+                    if first_h % (2 * self.g) == 0 and first_h > self.g + 1:
+                        e = "atr_redirect"   # the block that lands in slot 0 of the block ring redirects a rebroadcast
                     self.steps.append(dict(op="block", label=lab, parent=parent, gt=True, txs=txs, bedit=e, tag="bedit-side:" + e, gap=2))
                     par = lab
                     for j in range(d):
@@ -619,6 +624,8 @@ def scenarios(seed, n, long_p=0.3):
     for i in range(max(2, n // 25)):
         out.append(dust_spend_scenario(rnd))
     out += first_block_scenarios(rnd)
+    for i in range(max(6, n // 40)):
+        out.append(ring_seam_fork_scenario(rnd))
     for i in range(max(4, n // 12)):
         out.append(wallet_scenario(rnd))
     for i in range(max(3, n // 40)):
@@ -697,3 +704,21 @@ def gap_payout_scenario(rnd):
         gen.snap[label] = (dict(gen.outs), h, dict(gen.spent))
     return dict(g=gen.g, hb=gen.hb, keys=len(gen.keys), issuance=gen.issuance, node_key="k1", replica=False,
                 steps=gen.steps, tag="gap-payout")
+
+
+def ring_seam_fork_scenario(rnd):
+    """a competing branch whose first block replaces the block at a height that is a multiple of 2G (slot 0 of the
+    block ring) and redirects a rebroadcast; the branch must never win"""
+    g = rnd.choice([3, 3, 4])
+    gen = Gen(rnd, g, 2)
+    m = rnd.choice([1, 1, 2])
+    extra = rnd.randint(0, min(2, g - 2))
+    while gen.h < 2 * g * m + extra:
+        if not gen.good_block():
+            break
+    gen.reorg(depth=extra + 1, force_forged=True)
+    for _ in range(2):
+        gen.good_block()
+    s = gen.scenario(0)
+    s["tag"] = "ring-seam-fork"
+    return s
